@@ -55,13 +55,15 @@ Definition encode_labels (isprint : Z -> bool) (ls : list label) : string :=
 (* ------------------------------------------------------------------ what reaches fingerprintLabels
    Every log/metric protocol ends in onEntries(labels, ...). The label list it passes is
    sanitizeLabels(labels in wire order) for the Loki JSON "stream" object, the Loki JSON / protobuf
-   "labels" string (parseLabelsLokiFormat reads back what the client rendered) and Prometheus
-   remote write. onEntries then drops the __ttl_days__ label unless a TTL came with the request
+   "labels" string (parseLabelsLokiFormat reads back what the client rendered), Prometheus
+   remote write, and the InfluxDB line protocol (there "sent" is the label ("measurement", name)
+   followed by the tags in the iteration order of a Go map, i.e. in an arbitrary order; metric
+   lines append ("__name__", field) after sanitising, which is not modelled). onEntries then drops the __ttl_days__ label unless a TTL came with the request
    (header), and fingerprints the rest. *)
-Inductive proto := LokiJsonStream | LokiJsonLabels | LokiProto | PromRemoteWrite.
+Inductive proto := LokiJsonStream | LokiJsonLabels | LokiProto | PromRemoteWrite | InfluxLogs.
 Definition proto_labels (p : proto) (sent : list label) : list label :=
   match p with
-  | LokiJsonStream | LokiJsonLabels | LokiProto | PromRemoteWrite => sanitize sent
+  | LokiJsonStream | LokiJsonLabels | LokiProto | PromRemoteWrite | InfluxLogs => sanitize sent
   end.
 Definition is_ttl_label (l : label) : bool := String.eqb (fst l) "__ttl_days__".
 Definition on_entries_labels (ttl_hdr : Z) (ls : list label) : list label :=
